@@ -1,10 +1,10 @@
 SPECIFICATION BSpec
 CONSTANTS
-  Rows = 2
-  Cols = 3
+  Rows = 3
+  Cols = 4
   Chars <- Chars3
   Slack = 1
-  MaxSteps = 11
+  MaxSteps = 10
   MaxStack = 3
 INVARIANT Shape
 INVARIANT CursorOnScreen
